@@ -60,18 +60,24 @@ Truth(op, xq, yq, n, nb) ==
      ""   the property holds for this outcome
      "U"  not decidable from this enclosure (the caller retries with a tighter one; `last` says
           there is no tighter one, then whatever *is* decided is reported)
-     else the violated clause: the accuracy clause first (with the bracket of the error), then the
-          Exact-flag clause.
+     else the violated clause: the accuracy clause first (with the bracket of the error, and the
+          suffix "-pow1" when the returned significand is a power of the base plus one - the shape
+          of a result pushed across a power of the base), then the Exact-flag clause.
    o = [k |-> "ok", v |-> [v |-> float, flag |-> string]] | [k |-> "panic", ...] | [k |-> "timeout"] *)
-JudgeD(ef, T, r, d, last) ==
-  IF d.v = "FAILS" THEN d.cls
+\* the significand is B^k + 1, k >= 0 (trailing zero digits ignored): one unit above a power of the base
+IsPowPlusOne(B, m) ==
+  IF m = <<>> THEN FALSE
+  ELSE Let(ToRadix(Sub(FDivFloor(m, FPow(FromNat(B), TrailingZeroDigits(B, m))), One), B),
+           LAMBDA ds : Len(ds) >= 1 /\ ds[1] = 1 /\ \A i \in 2..Len(ds) : ds[i] = 0)
+JudgeD(ef, T, r, d, last, pow1) ==
+  IF d.v = "FAILS" THEN (IF pow1 /\ d.cls # "nonzero-for-zero" THEN d.cls \o "-pow1" ELSE d.cls)
   ELSE IF d.v = "UNDECIDED" /\ ~last THEN "U"
   ELSE IF ef /\ (T.irr \/ ~(FQLe(T.lo, r) /\ FQLe(r, T.hi))) THEN "exact-flag-untruthful"
   ELSE IF d.v = "UNDECIDED" THEN "U"
   \* a real power that may be rational: equality with r is not decidable by intervals
   ELSE IF ef /\ T.kind = "encl" THEN "U"
   ELSE ""
-JudgeR(B, p, ef, T, r, last) == JudgeD(ef, T, r, Decide3(B, p, r, T.lo, T.hi), last)
+JudgeR(B, p, ef, T, r, last, m) == JudgeD(ef, T, r, Decide3(B, p, r, T.lo, T.hi), last, IsPowPlusOne(B, m))
 Judge(B, p, o, T, last) ==
   IF T.kind = "domain" THEN ""
   ELSE IF o.k = "timeout" THEN "no-result-timeout"
@@ -82,7 +88,30 @@ Judge(B, p, o, T, last) ==
   ELSE IF o.k = "panic" THEN "unexpected-panic"
   ELSE IF o.v.v.inf # 0 THEN "not-finite"
   ELSE IF ~IsInt(o.v.v.sig) THEN "malformed-significand"
-  ELSE JudgeR(B, p, o.v.flag = "Exact", T, FFVal(B, o.v.v), last)
+  ELSE JudgeR(B, p, o.v.flag = "Exact", T, FFVal(B, o.v.v), last, o.v.v.sig.m)
+
+(* A real power x^(a/b) can be rational, and then an interval never decides an error of exactly one
+   ulp or a value exactly on a power of the base.  When the first enclosure leaves powf undecided,
+   the neighbours r - s, r, r + s of the returned value on its p-digit grid are tested *exactly*:
+   v = x^(a/b) iff v^b = x^a (for y < 0: v^b * x^a = 1).  A hit replaces the enclosure by the
+   exact value; no hit changes nothing. *)
+YFracG(num, den, g) == <<FDivFloor(num, g), FDivFloor(den, g)>>
+YFracND(num, den) == YFracG(num, den, Gcd(num, den))
+YFrac(B, y) == IF y.exp >= 0 THEN <<FMul(y.sig.m, FPow(FromNat(B), y.exp)), One>>
+               ELSE YFracND(y.sig.m, FPow(FromNat(B), -y.exp))
+IsRatPower(xq, yneg, a, b, v) ==
+  /\ QSign(v) > 0
+  /\ (Len(v.n.m) + Len(v.d)) * b <= 800 /\ (Len(xq.n.m) + Len(xq.d)) * a <= 800
+  /\ IF yneg THEN FQCmp(FQMul(QPowInt(v, b), QPowInt(xq, a)), QOne) = 0
+     ELSE FQCmp(QPowInt(v, b), QPowInt(xq, a)) = 0
+RatPowerPick(T, xq, yneg, ab, cands) ==
+  IF Len(ab[1]) > 1 \/ Len(ab[2]) > 1 \/ ab[1] = <<>> THEN T
+  ELSE Let({v \in cands : FQLe(T.lo, v) /\ FQLe(v, T.hi) /\ IsRatPower(xq, yneg, ab[1][1], ab[2][1], v)},
+           LAMBDA hits : IF hits = {} THEN T ELSE Ex(CHOOSE v \in hits : TRUE))
+RatPowerStep(B, p, T, xq, y, r, s) == RatPowerPick(T, xq, y.sig.s = 1, YFrac(B, y), {FQSub(r, s), r, FQAdd(r, s)})
+RefinePowf(B, p, T, xq, y, r) ==
+  IF T.kind # "encl" \/ QSign(r) <= 0 \/ p = 0 THEN T
+  ELSE RatPowerStep(B, p, T, xq, y, r, FQPowBase(B, FastFloorLog(B, r) - p + 1))
 
 \* working bytes of the first enclosure: the digits of the result plus five guard bytes
 BitsPerDigit(B) == IF B <= 2 THEN 1 ELSE IF B <= 4 THEN 2 ELSE IF B <= 8 THEN 3 ELSE IF B <= 16 THEN 4
